@@ -38,13 +38,16 @@ struct skiplist_iter {
 struct skiplist_node {
 	const char *key;
 	void *value;
-	/* special meaning when lower than SKIPLIST_LEVEL_MIN:
-	   indication that @skiplist_node_destroy() needs to skip
-	   disposing node->forward (unless it is the termination
-	   of the whole list) */
 	int8_t level;
 	uint32_t refcount;
 	struct qb_list_head notifier_head;
+
+	/* Only used once the node was removed from the list while one or
+	   more iterators are positioned on it: the (linked) node it used
+	   to follow, which is where those iterators continue from, and the
+	   membership in @skiplist->removed_head */
+	struct skiplist_node *anchor;
+	struct qb_list_head removed_list;
 
 	/* An array of @level + 1 node pointers */
 	struct skiplist_node **forward;
@@ -54,12 +57,10 @@ struct skiplist {
 	struct qb_map map;
 
 	size_t length;
-	/* special meaning when lower than SKIPLIST_LEVEL_MIN:
-	   indication that @skiplist_node_destroy() is the terminating
-	   one (triggered with @skiplist_destroy()), therefore node->forward
-	   needs to be free'd unconditionally */
 	int8_t level;
 	struct skiplist_node *header;
+	/* removed nodes that iterators are still positioned on */
+	struct qb_list_head removed_head;
 };
 
 /* An array of nodes that need to be updated after an insert or delete operation
@@ -93,7 +94,8 @@ skiplist_level_generate(void)
 static struct skiplist_node *
 skiplist_node_next(const struct skiplist_node *node)
 {
-	const struct skiplist_node *n = node;
+	/* a removed node is followed by whatever follows its anchor now */
+	const struct skiplist_node *n = node->anchor ? node->anchor : node;
 	do {
 		n = n->forward[SKIPLIST_LEVEL_MIN];
 	} while (n && n->refcount == 0);
@@ -119,6 +121,7 @@ skiplist_node_new(const int8_t level, const char *key, const void *value)
 	new_node->key = key;
 	new_node->level = level;
 	new_node->refcount = 1;
+	new_node->anchor = NULL;
 	qb_list_init(&new_node->notifier_head);
 
 	/* A level 0 node still needs to hold 1 forward pointer, etc.;
@@ -248,10 +251,10 @@ skiplist_node_destroy(struct skiplist_node *node, struct skiplist *list)
 		free(tn);
 	}
 
-	if (node->level >= SKIPLIST_LEVEL_MIN
-	    || list->level < SKIPLIST_LEVEL_MIN) {
-		free(node->forward);
+	if (node->anchor) {
+		qb_list_del(&node->removed_list);
 	}
+	free(node->forward);
 	free(node);
 }
 
@@ -369,7 +372,6 @@ skiplist_destroy(struct qb_map *map)
 	struct skiplist_node *cur_node;
 	struct skiplist_node *fwd_node;
 
-	list->level = SKIPLIST_LEVEL_MIN - 1;  /* indicate teardown */
 	for (cur_node = skiplist_node_next(list->header);
 	     cur_node; cur_node = fwd_node) {
 		fwd_node = skiplist_node_next(cur_node);
@@ -446,6 +448,7 @@ skiplist_rm(struct qb_map *map, const char *key)
 {
 	struct skiplist *list = (struct skiplist *)map;
 	struct skiplist_node *found_node;
+	struct skiplist_node *removed_node;
 	struct skiplist_node *cur_node = list->header;
 	int8_t level = list->level;
 	int8_t update_level;
@@ -483,6 +486,14 @@ skiplist_rm(struct qb_map *map, const char *key)
 		}
 	}
 
+	/* Removed nodes that iterators are still positioned on, and that
+	   used to follow @found_node, follow its predecessor from now on. */
+	qb_list_for_each_entry(removed_node, &list->removed_head, removed_list) {
+		if (removed_node->anchor == found_node) {
+			removed_node->anchor = cur_node;
+		}
+	}
+
 	/* If @found_node is referenced more than once, it means that it is
 	   currently positioned with one or more iterators, therefore it's
 	   likely that @qb_map_iter_next() will be called at least once so
@@ -492,27 +503,12 @@ skiplist_rm(struct qb_map *map, const char *key)
 	   iterator(s) resumes, possibly causing use-after-free in
 	   @skiplist_node_next().
 
-	   To solve this, we will grab @cur_node->forward, which has just
-	   been updated accordingly in the above statement, copying it
-	   to @found_node->forward, and repointing @cur_node->forward to
-	   point to @found_node's copy (freeing its original list first).
-	   To prevent freeing the pointed memory behind @cur_node's
-	   back from the @found_node's context, we use the fact that the
-	   iterator can only advance to the next node, without re-examination
-	   of the current one, hence we can afford to abuse @found_node->value
-	   as a flag field when set to our private "special" value that under
-	   no normal circumstance can appear (for being link-time singleton).
-
-	   In addition, we have to special-case the beginning of the list
-	   (header) preceding @found_node, which can be distinguished with
-	   NULL being used as a key (second allowing condition below). */
-	if (found_node->refcount > 1 || cur_node->key == NULL) {
-		for (level = SKIPLIST_LEVEL_MIN; level <= found_node->level; level++) {
-			found_node->forward[level] = cur_node->forward[level];
-		}
-		found_node->level = SKIPLIST_LEVEL_MIN - 1;  /* no "forward" drop */
-		free(cur_node->forward);
-		cur_node->forward = found_node->forward;
+	   To solve this, @found_node remembers the node it used to follow
+	   (kept current by the loop above for as long as it takes), and
+	   @skiplist_node_next() continues from there. */
+	if (found_node->refcount > 1) {
+		found_node->anchor = cur_node;
+		qb_list_add(&found_node->removed_list, &list->removed_head);
 	}
 	skiplist_node_deref(found_node, list);
 
@@ -619,6 +615,7 @@ qb_skiplist_create(void)
 	sl->map.notify_add = skiplist_notify_add;
 	sl->map.notify_del = skiplist_notify_del;
 	sl->level = SKIPLIST_LEVEL_MIN;
+	qb_list_init(&sl->removed_head);
 	sl->length = 0;
 	sl->header = skiplist_header_node_new();
 
